@@ -29,6 +29,9 @@ DIRECTED = [
      [{'all': False, 'check': 'CheckWeakECPrivateKey', 'batch': ['s1', 's2']},
       {'all': False, 'check': 'CheckWeakECPrivateKey', 'batch': ['s3', 's2', 's4', 's5']},
       {'all': False, 'check': 'CheckWeakECPrivateKey', 'batch': ['s6']}]),
+    # two keys further apart than max_diff, after a search that left a larger table on the curve (fix of BatchDLOfDifferences)
+    ('ec', 'difference-inside-the-older-table', {'s1': 'weakprivate', 's2': 'farA', 's3': 'farB', 's4': 'healthy'},
+     [{'all': False, 'check': 'CheckWeakECPrivateKey', 'batch': ['s1']}, {'all': False, 'check': 'CheckECKeySmallDifference', 'batch': ['s2', 's3', 's4']}]),
     ('rsa', 'lhw-suspicion-first', {'s1': 'lhwA', 's2': 'healthy', 's3': 'small'},
      [{'all': False, 'check': 'CheckLowHammingWeight', 'batch': ['s1', 's2', 's3']}]),
     ('rsa', 'mixed-sizes', {'s1': 'small', 's2': 'pattern4096', 's3': 'healthy'},
